@@ -1,7 +1,7 @@
 (* C02: parse_render theorems for ISO date-times followed by a UTC designator (Z, UTC, GMT). *)
 From Coq Require Import ZArith List Bool Lia ZifyBool.
 From V Require Import base.Cal gen.ParseTables parse.Lex parse.Prim parse.Ymd parse.Parse parse.Build
-                      parse.ParseSpec parse.LexSeg parse.TokFacts parse.YearThm parse.RenderTac parse.RenderIso parse.RenderUtcDefs parse.RenderUtc_JT_OZ parse.RenderUtc_JT_OUTC parse.RenderUtc_JT_OGMT parse.RenderUtc_JSpace_OZ parse.RenderUtc_JSpace_OUTC parse.RenderUtc_JSpace_OGMT.
+                      parse.ParseSpec parse.LexSeg parse.TokFacts parse.YearThm parse.RenderTac parse.RenderIso parse.RenderUtcDefs.
 Import ListNotations.
 Open Scope Z_scope.
 Ltac Zify.zify_post_hook ::= Z.to_euclidean_division_equations.
@@ -40,24 +40,30 @@ Local Arguments Z.sub !m !n.
 Local Arguments Z.opp !x.
 
 
-Definition utc_oforms : list oform := [OZ; OUTC; OGMT].
-
-(* YYYY-MM-DD{T, space}HH:MM:SS followed by Z / " UTC" / " GMT": aware result in UTC.  "UTC" and
-   "GMT" must not be local zone names (time.tzname), otherwise the local zone is attached. *)
-Theorem parse_render_iso_utc_lemma : forall j ofm d o df cy loc n0 n1 yf ig,
-  In j plain_joiners -> In ofm utc_oforms ->
+Lemma parse_render_iso_utc_JSpace_OZ : forall d o df cy loc n0 n1 yf ig,
   valid_dt d = true -> valid_dt df = true ->
   smem [85; 84; 67] loc = false -> smem [71; 77; 84] loc = false ->
-  parse (opts_df0 yf ig df cy loc n0 n1) (render (TDT DIso j THMS ofm) d o)
-  = OutOk (expected_dt (TDT DIso j THMS ofm) d df) (if ig then ZNaive else ZUTC) 0 false [].
+  parse (opts_df0 yf ig df cy loc n0 n1) (render (TDT DIso JSpace THMS OZ) d o)
+  = OutOk (expected_dt (TDT DIso JSpace THMS OZ) d df) (if ig then ZNaive else ZUTC) 0 false [].
 Proof.
-  intros j ofm d o df cy loc n0 n1 yf ig Hj Hofm Hd Hdf Hl1 Hl2.
-  unfold plain_joiners, utc_oforms in *. cbn [In] in Hj, Hofm.
-  destruct Hj as [<- | [<- | []]]; destruct Hofm as [<- | [<- | [<- | []]]].
-  - apply parse_render_iso_utc_JT_OZ; assumption.
-  - apply parse_render_iso_utc_JT_OUTC; assumption.
-  - apply parse_render_iso_utc_JT_OGMT; assumption.
-  - apply parse_render_iso_utc_JSpace_OZ; assumption.
-  - apply parse_render_iso_utc_JSpace_OUTC; assumption.
-  - apply parse_render_iso_utc_JSpace_OGMT; assumption.
+  intros d o df cy loc n0 n1 yf ig Hd Hdf Hl1 Hl2.
+  destruct (valid_dt_ranges d Hd) as (Ry & Rmo & Rd & Rh & Rmi & Rs & Rus).
+  unfold smem in Hl1, Hl2.
+  match goal with |- parse _ (render ?t d o) = _ =>
+    assert (Hrender : render t d o = concat (map seg_str (usegs_of t d)))
+      by (unfold render, render_date, render_time, render_off, join_txt, usegs_of, date_segs, join_segs, time_segs, utc_segs;
+          cbn [map concat seg_str app]; repeat (progress (repeat rewrite <- app_assoc; cbn [app]));
+          rewrite ?app_nil_r; reflexivity);
+    assert (Hwf : wf_segs (usegs_of t d) = true)
+      by (unfold usegs_of, date_segs, join_segs, time_segs, utc_segs; cbn [app wf_segs wf_seg hd_error ok_next];
+          rewrite ?digits_n_all_digit, ?digits_n_length, ?nonempty_digits; vm_compute; reflexivity)
+  end;
+  unfold parse, opts_df0;
+  cbn [o_fuzzy o_fwt o_yearfirst o_info_yearfirst o_dayfirst o_info_dayfirst o_cur_year oflag o_default
+       o_ignoretz o_tzinfos o_local o_nm0 o_nm1];
+  unfold parse_res; rewrite Hrender, timelex_segments by exact Hwf; clear Hrender Hwf;
+  unfold usegs_of, date_segs, join_segs, time_segs, utc_segs; cbn [app map seg_tok];
+  repeat (progress (sym1; rewrite ?Hl1, ?Hl2));
+  try match goal with |- (if ?b then _ else _) = _ => destruct b end;
+  reflexivity.
 Qed.
